@@ -163,13 +163,28 @@ pub struct ScanCompSpec {
     pub ta: u8,
 }
 
-#[derive(Clone, Debug, Default)]
+#[derive(Clone, Debug)]
 pub struct ScanSpec {
     pub comps: Vec<ScanCompSpec>,
     /// block index within the scan (coding order) -> number of ZRL symbols written after the
     /// last non-zero coefficient, before the end-of-block symbol (a construct some encoders
     /// emit and decoders accept; the reconstruction format has a field for it)
     pub extra_zrl: BTreeMap<u32, u32>,
+    /// spectral selection and successive approximation (progressive frames; a sequential scan
+    /// has Ss = 0, Se = 63, Ah = Al = 0)
+    pub ss: u8,
+    pub se: u8,
+    pub ah: u8,
+    pub al: u8,
+    /// progressive AC scans: block indices (coding order) before which a pending end-of-band run
+    /// is written out although it could have been continued
+    pub eob_splits: std::collections::BTreeSet<u32>,
+}
+
+impl Default for ScanSpec {
+    fn default() -> Self {
+        ScanSpec { comps: vec![], extra_zrl: BTreeMap::new(), ss: 0, se: 63, ah: 0, al: 0, eob_splits: Default::default() }
+    }
 }
 
 #[derive(Clone, Copy, Debug, PartialEq, Eq)]
@@ -329,6 +344,12 @@ pub fn scan_tokens(spec: &JpegSpec, s: usize, restart_interval: u16) -> Result<V
     if scan.comps.is_empty() || scan.comps.len() > 4 {
         return Err("scan needs 1..=4 components".into());
     }
+    if spec.sof_marker == 0xc2 {
+        return progressive_scan_tokens(spec, s, restart_interval).map(|r| r.0);
+    }
+    if (scan.ss, scan.se, scan.ah, scan.al) != (0, 63, 0, 0) {
+        return Err("sequential scan with progressive parameters".into());
+    }
     let (order, per_mcu) = spec.scan_block_order(s);
     let mut pred = vec![0i32; scan.comps.len()];
     let mut toks = Vec::with_capacity(order.len() * 4);
@@ -394,6 +415,323 @@ pub fn scan_tokens(spec: &JpegSpec, s: usize, restart_interval: u16) -> Result<V
         }
     }
     Ok(toks)
+}
+
+// ---------------------------------------------------------------------------
+// Progressive entropy coding (Annex G)
+
+/// What a progressive scan exercised (for the class histogram of the generators).
+#[derive(Clone, Debug, Default)]
+pub struct ScanStats {
+    /// longest end-of-band run written
+    pub eobrun_max: u32,
+    /// EOBn symbols written (n = symbol >> 4)
+    pub eob_symbols: std::collections::BTreeSet<u8>,
+    /// ZRL symbols in a refinement scan, and those that carried correction bits
+    pub zrl_refine: usize,
+    pub zrl_refine_with_bits: usize,
+    pub zrl_first: usize,
+    /// newly non-zero coefficients of a refinement scan, by sign
+    pub newly_pos: usize,
+    pub newly_neg: usize,
+    pub correction_bits: usize,
+    /// longest stretch of already-non-zero coefficients passed by one run / ZRL symbol
+    pub max_bits_per_symbol: usize,
+    /// negative coefficients whose point transform differs between rounding towards zero and
+    /// an arithmetic shift (first AC scans with Al > 0)
+    pub neg_inexact_shift: usize,
+    /// end-of-band runs cut by `eob_splits`, extra ZRL symbols written
+    pub splits_effective: usize,
+    pub extra_zrl: usize,
+}
+
+/// Point transform of AC coefficients: division by 2^Al, rounding towards zero (G.1.2.2).
+fn ac_point_transform(c: i32, al: u8) -> i32 {
+    if c >= 0 {
+        c >> al
+    } else {
+        -((-c) >> al)
+    }
+}
+
+struct EobRun {
+    run: u32,
+    /// correction bits of the blocks in the run (refinement scans)
+    bits: Vec<u8>,
+}
+
+impl EobRun {
+    fn flush(&mut self, toks: &mut Vec<Tok>, ta: u8, st: &mut ScanStats) {
+        if self.run == 0 {
+            debug_assert!(self.bits.is_empty());
+            return;
+        }
+        let n = 31 - self.run.leading_zeros();
+        toks.push(Tok::Sym { ac: true, tbl: ta, sym: (n as u8) << 4 });
+        if n > 0 {
+            toks.push(Tok::Bits { val: (self.run - (1 << n)) as u16, len: n as u8 });
+        }
+        for b in self.bits.drain(..) {
+            toks.push(Tok::Bits { val: b as u16, len: 1 });
+        }
+        st.eobrun_max = st.eobrun_max.max(self.run);
+        st.eob_symbols.insert(n as u8);
+        self.run = 0;
+    }
+}
+
+/// Token stream of one scan of a progressive frame (SOF2): DC first / DC refinement scans
+/// (G.1.2.1), AC first scans with end-of-band runs (G.1.2.2), AC refinement scans (G.1.2.3).
+pub fn progressive_scan_tokens(spec: &JpegSpec, s: usize, restart_interval: u16) -> Result<(Vec<Tok>, ScanStats), String> {
+    let scan = &spec.scans[s];
+    let (ss, se, ah, al) = (scan.ss as usize, scan.se as usize, scan.ah, scan.al);
+    if ss > se || se > 63 || al > 13 || ah > 13 {
+        return Err(format!("scan {s}: invalid Ss/Se/Ah/Al {ss}/{se}/{ah}/{al}"));
+    }
+    if ss == 0 && se != 0 {
+        return Err(format!("scan {s}: a progressive scan with DC coefficients has Se = 0"));
+    }
+    if ss > 0 && scan.comps.len() != 1 {
+        return Err(format!("scan {s}: progressive AC scans have one component"));
+    }
+    if ah != 0 && ah != al + 1 {
+        return Err(format!("scan {s}: a refinement scan has Ah = Al + 1"));
+    }
+    let (order, per_mcu) = spec.scan_block_order(s);
+    let mut st = ScanStats::default();
+    let mut toks = Vec::with_capacity(order.len() * 4);
+    let mut pred = vec![0i32; scan.comps.len()];
+    let ta = scan.comps[0].ta;
+    let mut eob = EobRun { run: 0, bits: vec![] };
+    let n_mcus = order.len() / per_mcu;
+    for m in 0..n_mcus {
+        if restart_interval != 0 && m != 0 && m % restart_interval as usize == 0 {
+            eob.flush(&mut toks, ta, &mut st);
+            toks.push(Tok::Restart);
+            pred.iter_mut().for_each(|p| *p = 0);
+        }
+        for b in 0..per_mcu {
+            let block_idx = m * per_mcu + b;
+            let (pos, c, bx, by) = order[block_idx];
+            let comp = &spec.components[c];
+            if bx >= comp.bw || by >= comp.bh {
+                return Err(format!("component {c} has no block ({bx}, {by})"));
+            }
+            let blk = &comp.blocks[by * comp.bw + bx];
+            let sc = &scan.comps[pos];
+            if ss == 0 {
+                // point transform of DC: arithmetic shift
+                let v = (blk[0] as i32) >> al;
+                if ah == 0 {
+                    let diff = v - pred[pos];
+                    pred[pos] = v;
+                    let ssss = magnitude_category(diff);
+                    if ssss > 11 {
+                        return Err(format!("DC difference {diff} needs category {ssss} > 11"));
+                    }
+                    toks.push(Tok::Sym { ac: false, tbl: sc.td, sym: ssss });
+                    if ssss > 0 {
+                        toks.push(Tok::Bits { val: additional_bits(diff, ssss), len: ssss });
+                    }
+                } else {
+                    toks.push(Tok::Bits { val: (v & 1) as u16, len: 1 });
+                }
+                continue;
+            }
+            if scan.eob_splits.contains(&(block_idx as u32)) && eob.run > 0 {
+                eob.flush(&mut toks, ta, &mut st);
+                st.splits_effective += 1;
+            }
+            let extra = scan.extra_zrl.get(&(block_idx as u32)).copied().unwrap_or(0);
+            if ah == 0 {
+                // first scan of this band
+                let mut r = 0u32;
+                for k in ss..=se {
+                    let c0 = blk[k] as i32;
+                    let v = ac_point_transform(c0, al);
+                    if c0 < 0 && (c0 >> al) != v {
+                        st.neg_inexact_shift += 1;
+                    }
+                    if v == 0 {
+                        r += 1;
+                        continue;
+                    }
+                    eob.flush(&mut toks, ta, &mut st);
+                    while r > 15 {
+                        toks.push(Tok::Sym { ac: true, tbl: ta, sym: 0xf0 });
+                        st.zrl_first += 1;
+                        r -= 16;
+                    }
+                    let ssss = magnitude_category(v);
+                    if ssss > 10 {
+                        return Err(format!("AC coefficient {v} needs category {ssss} > 10"));
+                    }
+                    toks.push(Tok::Sym { ac: true, tbl: ta, sym: ((r as u8) << 4) | ssss });
+                    toks.push(Tok::Bits { val: additional_bits(v, ssss), len: ssss });
+                    r = 0;
+                }
+                if r > 0 {
+                    if extra > 0 {
+                        if extra * 16 > r {
+                            return Err(format!("block {block_idx}: {extra} extra ZRL symbols do not fit {r} trailing zeros"));
+                        }
+                        eob.flush(&mut toks, ta, &mut st);
+                        for _ in 0..extra {
+                            toks.push(Tok::Sym { ac: true, tbl: ta, sym: 0xf0 });
+                        }
+                        st.extra_zrl += extra as usize;
+                        r -= 16 * extra;
+                    }
+                    if r > 0 {
+                        eob.run += 1;
+                        if eob.run == 0x7fff {
+                            eob.flush(&mut toks, ta, &mut st);
+                        }
+                    }
+                } else if extra > 0 {
+                    return Err(format!("block {block_idx}: extra ZRL symbols without trailing zeros"));
+                }
+            } else {
+                // refinement scan: one more bit of every coefficient of the band
+                let a: Vec<i32> = (ss..=se).map(|k| (blk[k] as i32).abs() >> al).collect();
+                let last_new = a.iter().rposition(|&x| x == 1);
+                let mut r = 0u32;
+                let mut br: Vec<u8> = vec![];
+                let mut k = 0;
+                if let Some(last) = last_new {
+                    while k <= last {
+                        if a[k] == 0 {
+                            r += 1;
+                            k += 1;
+                            continue;
+                        }
+                        while r > 15 {
+                            eob.flush(&mut toks, ta, &mut st);
+                            toks.push(Tok::Sym { ac: true, tbl: ta, sym: 0xf0 });
+                            st.zrl_refine += 1;
+                            if !br.is_empty() {
+                                st.zrl_refine_with_bits += 1;
+                            }
+                            st.max_bits_per_symbol = st.max_bits_per_symbol.max(br.len());
+                            r -= 16;
+                            for bit in br.drain(..) {
+                                toks.push(Tok::Bits { val: bit as u16, len: 1 });
+                            }
+                        }
+                        if a[k] > 1 {
+                            br.push((a[k] & 1) as u8);
+                            st.correction_bits += 1;
+                            k += 1;
+                            continue;
+                        }
+                        eob.flush(&mut toks, ta, &mut st);
+                        toks.push(Tok::Sym { ac: true, tbl: ta, sym: ((r as u8) << 4) | 1 });
+                        let positive = blk[ss + k] > 0;
+                        if positive {
+                            st.newly_pos += 1;
+                        } else {
+                            st.newly_neg += 1;
+                        }
+                        toks.push(Tok::Bits { val: positive as u16, len: 1 });
+                        st.max_bits_per_symbol = st.max_bits_per_symbol.max(br.len());
+                        for bit in br.drain(..) {
+                            toks.push(Tok::Bits { val: bit as u16, len: 1 });
+                        }
+                        r = 0;
+                        k += 1;
+                    }
+                }
+                // what follows the last newly non-zero coefficient is covered by the end-of-band code,
+                // except for `extra` ZRL symbols written first
+                let mut zr = 0u32;
+                let mut extra_left = extra;
+                while k < a.len() {
+                    if a[k] == 0 {
+                        zr += 1;
+                        if extra_left > 0 && zr == 16 {
+                            eob.flush(&mut toks, ta, &mut st);
+                            toks.push(Tok::Sym { ac: true, tbl: ta, sym: 0xf0 });
+                            st.zrl_refine += 1;
+                            st.extra_zrl += 1;
+                            if !br.is_empty() {
+                                st.zrl_refine_with_bits += 1;
+                            }
+                            for bit in br.drain(..) {
+                                toks.push(Tok::Bits { val: bit as u16, len: 1 });
+                            }
+                            zr = 0;
+                            extra_left -= 1;
+                        }
+                    } else {
+                        br.push((a[k] & 1) as u8);
+                        st.correction_bits += 1;
+                    }
+                    k += 1;
+                }
+                if extra_left > 0 {
+                    return Err(format!("block {block_idx}: extra ZRL symbols do not fit the zeros after the last new coefficient"));
+                }
+                if zr > 0 || !br.is_empty() {
+                    eob.run += 1;
+                    eob.bits.append(&mut br);
+                    if eob.run == 0x7fff {
+                        eob.flush(&mut toks, ta, &mut st);
+                    }
+                }
+            }
+        }
+    }
+    eob.flush(&mut toks, ta, &mut st);
+    Ok((toks, st))
+}
+
+/// The coefficients a decoder holds after all scans of a progressive frame: per block and coefficient
+/// the bits the scans that covered it transmitted (first scan: the value at reduced precision, DC by
+/// arithmetic shift, AC towards zero; each refinement scan: one more bit), zero where no scan covered
+/// it.  For a sequential frame: the blocks unchanged.
+pub fn effective_coefficients(spec: &JpegSpec) -> Vec<Vec<[i16; 64]>> {
+    if spec.sof_marker != 0xc2 {
+        return spec.components.iter().map(|c| c.blocks.clone()).collect();
+    }
+    let mut out: Vec<Vec<[i16; 64]>> = spec.components.iter().map(|c| vec![[0i16; 64]; c.blocks.len()]).collect();
+    for s in 0..spec.scans.len() {
+        let scan = &spec.scans[s];
+        let (order, _) = spec.scan_block_order(s);
+        for (_, c, bx, by) in order {
+            let comp = &spec.components[c];
+            let i = by * comp.bw + bx;
+            for k in scan.ss as usize..=scan.se as usize {
+                let v = comp.blocks[i][k] as i32;
+                let bit = 1i32 << scan.al;
+                let cur = out[c][i][k] as i32;
+                out[c][i][k] = if scan.ah == 0 {
+                    // first scan: the value at reduced precision
+                    if k == 0 {
+                        (v >> scan.al) << scan.al
+                    } else {
+                        ac_point_transform(v, scan.al) << scan.al
+                    }
+                } else if k == 0 {
+                    // refinement adds one bit to what earlier scans left (a block of the MCU padding
+                    // may have missed a non-interleaved scan)
+                    (cur & !bit) | (v & bit)
+                } else if (v.abs() >> scan.al) & 1 == 0 {
+                    cur
+                } else if cur == 0 {
+                    if v < 0 {
+                        -bit
+                    } else {
+                        bit
+                    }
+                } else if cur < 0 {
+                    -(cur.abs() | bit)
+                } else {
+                    cur | bit
+                } as i16;
+            }
+        }
+    }
+    out
 }
 
 /// MSB-first bit sink with byte stuffing (F.1.2.3).
@@ -541,7 +879,7 @@ pub fn encode_jpeg(spec: &JpegSpec) -> Result<EncodedJpeg, String> {
                     p.push(spec.components[sc.comp].id);
                     p.push((sc.td << 4) | sc.ta);
                 }
-                p.extend_from_slice(&[0, 63, 0]);
+                p.extend_from_slice(&[scan.ss, scan.se, (scan.ah << 4) | scan.al]);
                 push_segment(&mut out, 0xda, &p)?;
                 let toks = scan_tokens(spec, *s, restart_interval)?;
                 let mut w = EcsWriter { out: vec![], acc: 0, nbits: 0 };
@@ -727,13 +1065,13 @@ impl JbrdSpec {
                     j.markers.push(0xda);
                     let scan = &spec.scans[*s];
                     j.scans.push(JbrdScan {
-                        ss: 0,
-                        se: 63,
-                        al: 0,
-                        ah: 0,
+                        ss: scan.ss,
+                        se: scan.se,
+                        al: scan.al,
+                        ah: scan.ah,
                         comps: scan.comps.iter().map(|sc| JbrdScanComp { comp_idx: sc.comp as u8, ac_tbl: sc.ta, dc_tbl: sc.td }).collect(),
                         last_needed_pass: 0,
-                        reset_points: vec![],
+                        reset_points: scan.eob_splits.iter().copied().collect(),
                         extra_zero_runs: scan.extra_zrl.iter().map(|(&b, &n)| (b, n)).collect(),
                     });
                 }
@@ -890,6 +1228,8 @@ pub struct DecodedJpeg {
     pub quant: [Option<[u16; 64]>; 4],
     pub restart_markers: usize,
     pub tail: Vec<u8>,
+    /// SOF2
+    pub progressive: bool,
 }
 
 struct EcsReader<'a> {
@@ -1010,7 +1350,8 @@ pub fn decode_jpeg(data: &[u8]) -> Result<DecodedJpeg, String> {
                     huff[(tc & 1) as usize][(th & 3) as usize] = Some(HuffTableSpec { ac: tc == 1, id: th, counts, symbols });
                 }
             }
-            0xc0 | 0xc1 => {
+            0xc0 | 0xc1 | 0xc2 => {
+                out.progressive = m == 0xc2;
                 out.height = u16::from_be_bytes([seg[1], seg[2]]) as u32;
                 out.width = u16::from_be_bytes([seg[3], seg[4]]) as u32;
                 for c in 0..seg[5] as usize {
@@ -1065,6 +1406,9 @@ pub fn decode_jpeg(data: &[u8]) -> Result<DecodedJpeg, String> {
                     }
                     per_mcu = comps.iter().map(|&(ci, _, _)| out.components[ci].1 as usize * out.components[ci].2 as usize).sum();
                 }
+                let (ss, se) = (seg[1 + 2 * ns] as usize, (seg[2 + 2 * ns] as usize).min(63));
+                let (ah, al) = (seg[3 + 2 * ns] >> 4, seg[3 + 2 * ns] & 15);
+                let mut eobrun = 0u32;
                 let mut r = EcsReader { d: data, pos, acc: 0, n: 0 };
                 let mut pred = vec![0i32; ns];
                 let mut expect_rst = 0u8;
@@ -1079,6 +1423,111 @@ pub fn decode_jpeg(data: &[u8]) -> Result<DecodedJpeg, String> {
                         expect_rst = (expect_rst + 1) % 8;
                         out.restart_markers += 1;
                         pred.iter_mut().for_each(|p| *p = 0);
+                        eobrun = 0;
+                    }
+                    if out.progressive {
+                        let (bw, _, blocks) = &mut out.blocks[ci];
+                        let blk = &mut blocks[by * *bw + bx];
+                        if ss == 0 {
+                            if ah == 0 {
+                                // G.1.2.1: the difference is coded at the reduced precision
+                                let dc_t = huff[0][comps[k].1 & 3].as_ref().ok_or("DC table missing")?;
+                                let t = r.symbol(dc_t)? as u32;
+                                pred[k] += extend(r.bits(t)?, t);
+                                blk[0] = (pred[k] << al) as i16;
+                            } else if r.bit()? == 1 {
+                                blk[0] |= 1 << al;
+                            }
+                            continue;
+                        }
+                        let ac_t = huff[1][comps[k].2 & 3].as_ref().ok_or("AC table missing")?;
+                        if ah == 0 {
+                            // G.2.2: first scan of a band, with end-of-band runs
+                            if eobrun > 0 {
+                                eobrun -= 1;
+                                continue;
+                            }
+                            let mut kk = ss;
+                            while kk <= se {
+                                let rs = r.symbol(ac_t)?;
+                                let (run, size) = ((rs >> 4) as usize, (rs & 15) as u32);
+                                if size == 0 {
+                                    if run == 15 {
+                                        kk += 16;
+                                        continue;
+                                    }
+                                    eobrun = (1 << run) + r.bits(run as u32)? - 1;
+                                    break;
+                                }
+                                kk += run;
+                                if kk > se {
+                                    return Err("AC coefficient index past the end of the band".into());
+                                }
+                                blk[kk] = (extend(r.bits(size)?, size) << al) as i16;
+                                kk += 1;
+                            }
+                        } else {
+                            // G.2.3 / Figure G.7 read in the decoding direction: refinement of a band
+                            let p1 = 1i16 << al;
+                            let refine = |r: &mut EcsReader, c: &mut i16| -> Result<(), String> {
+                                if r.bit()? == 1 && (*c & p1) == 0 {
+                                    if *c >= 0 {
+                                        *c += p1;
+                                    } else {
+                                        *c -= p1;
+                                    }
+                                }
+                                Ok(())
+                            };
+                            let mut kk = ss;
+                            if eobrun == 0 {
+                                while kk <= se {
+                                    let rs = r.symbol(ac_t)?;
+                                    let (mut run, size) = ((rs >> 4) as i32, (rs & 15) as u32);
+                                    let mut val = 0i16;
+                                    if size == 0 {
+                                        if run < 15 {
+                                            eobrun = (1 << run) + r.bits(run as u32)?;
+                                            break;
+                                        }
+                                    } else if size == 1 {
+                                        val = if r.bit()? == 1 { p1 } else { -p1 };
+                                    } else {
+                                        return Err("refinement scan with a coefficient size other than 1".into());
+                                    }
+                                    // pass `run` coefficients with zero history; the next one is the target
+                                    while kk <= se {
+                                        if blk[kk] != 0 {
+                                            refine(&mut r, &mut blk[kk])?;
+                                        } else {
+                                            if run == 0 {
+                                                break;
+                                            }
+                                            run -= 1;
+                                        }
+                                        kk += 1;
+                                    }
+                                    if val != 0 {
+                                        if kk > se {
+                                            return Err("new coefficient past the end of the band".into());
+                                        }
+                                        blk[kk] = val;
+                                    }
+                                    kk += 1;
+                                }
+                            }
+                            if eobrun > 0 {
+                                // the rest of the band: correction bits only
+                                while kk <= se {
+                                    if blk[kk] != 0 {
+                                        refine(&mut r, &mut blk[kk])?;
+                                    }
+                                    kk += 1;
+                                }
+                                eobrun -= 1;
+                            }
+                        }
+                        continue;
                     }
                     let dc_t = huff[0][comps[k].1 & 3].as_ref().ok_or("DC table missing")?;
                     let ac_t = huff[1][comps[k].2 & 3].as_ref().ok_or("AC table missing")?;
@@ -1133,7 +1582,19 @@ pub fn roundtrip_check(spec: &JpegSpec, bytes: &[u8]) -> Result<(), String> {
             return Err(format!("quantisation table of component {c} differs"));
         }
     }
+    if spec.sof_marker == 0xc2 {
+        // every stored block: what no scan covers stays zero
+        for (c, comp) in spec.components.iter().enumerate() {
+            if let Some(i) = (0..comp.blocks.len()).find(|&i| d.blocks[c].2[i] != comp.blocks[i]) {
+                let k = (0..64).find(|&k| d.blocks[c].2[i][k] != comp.blocks[i][k]).unwrap();
+                return Err(format!("progressive: block {i} of component {c} reads back differently (coefficient {k}: {} instead of {})", d.blocks[c].2[i][k], comp.blocks[i][k]));
+            }
+        }
+    }
     for s in 0..spec.scans.len() {
+        if spec.sof_marker == 0xc2 {
+            break;
+        }
         let (order, _) = spec.scan_block_order(s);
         for (_, c, bx, by) in order {
             let comp = &spec.components[c];
@@ -1185,6 +1646,29 @@ mod tests {
         assert_eq!(c[0x00], (0b1010, 4));
         assert_eq!(c[0x01], (0b00, 2));
         assert_eq!(c[0xf0], (0b11111111001, 11));
+    }
+
+    #[test]
+    fn end_of_band_run_codes() {
+        // Table G.1: EOBn covers runs 2^n .. 2^(n+1)-1, followed by n bits holding run - 2^n
+        for (run, sym, extra) in [(1u32, 0x00u8, None), (2, 0x10, Some((0u16, 1u8))), (5, 0x20, Some((1, 2))), (16384, 0xe0, Some((0, 14))), (32767, 0xe0, Some((16383, 14)))] {
+            let mut toks = vec![];
+            let mut st = ScanStats::default();
+            EobRun { run, bits: vec![1, 0] }.flush(&mut toks, 2, &mut st);
+            assert_eq!(toks[0], Tok::Sym { ac: true, tbl: 2, sym });
+            let mut k = 1;
+            if let Some((val, len)) = extra {
+                assert_eq!(toks[k], Tok::Bits { val, len });
+                k += 1;
+            }
+            // the correction bits of the blocks in the run follow
+            assert_eq!(&toks[k..], &[Tok::Bits { val: 1, len: 1 }, Tok::Bits { val: 0, len: 1 }]);
+        }
+        // point transform of AC coefficients rounds towards zero, that of DC is an arithmetic shift
+        assert_eq!(ac_point_transform(-3, 1), -1);
+        assert_eq!(ac_point_transform(-1, 1), 0);
+        assert_eq!(ac_point_transform(5, 2), 1);
+        assert_eq!(-3i32 >> 1, -2);
     }
 
     #[test]
